@@ -1,2 +1,94 @@
-(** C10 — placeholder, first pipeline *)
-From ZV Require Import Lib.Base Model.BuilderFlow.
+(** C10 — Results do not depend on how the index was built.
+    Model: Model/BuilderFlow.v (Builder.Add/flush partition, sortDocuments, pooled postingsBuilder with reset,
+    what writePostings emits). Proofs: Proofs/BuilderFlow.v, Proofs/BuilderPostings.v. *)
+From ZV Require Import Lib.Base Model.BuilderFlow Proofs.BuilderFlow Proofs.BuilderPostings.
+From Coq Require Import Permutation.
+
+(** (1) Every added document lands in exactly one shard — stronger: the shards, in shard-number order, spell the
+    input stream. For every weight function (document sizes, skipped or not), every ShardMax, every stream. *)
+Theorem C10_every_document_in_exactly_one_shard :
+  forall (A : Type) (weight : A -> N) (shard_max : N) (docs : list A),
+    concat (partition weight shard_max docs) = docs.
+Proof. intros. apply partition_concat. Qed.
+Print Assumptions C10_every_document_in_exactly_one_shard.
+
+(** (2) The flush rule: every shard but the last exceeded ShardMax exactly when its last document was added. *)
+Theorem C10_flush_rule :
+  forall (A : Type) (weight : A -> N) (shard_max : N) (docs : list A),
+    exists flushed last, partition weight shard_max docs = flushed ++ last /\
+      Forall (full weight shard_max) flushed /\
+      (last = [] \/ exists t, last = [t] /\ (total weight t <= shard_max)%N).
+Proof. intros. apply partition_flush_rule. Qed.
+Print Assumptions C10_flush_rule.
+
+(** (3) sortDocuments neither drops nor duplicates documents. *)
+Theorem C10_sort_is_permutation :
+  forall (A : Type) (key : A -> dkey) (l : list A), Permutation (sort_docs key l) l.
+Proof. intros. apply sort_docs_perm. Qed.
+Print Assumptions C10_sort_is_permutation.
+
+(** (4) Stale-buffer freedom. Whatever a pooled postingsBuilder went through before (any sequence of documents and
+    resets), after reset() it writes, for ANY list of documents, exactly the (ngram, posting data) pairs a fresh builder
+    writes — same set, no ngram twice — and the same runeOffsets / endRunes / isPlainASCII / counters.
+    (writePostings sorts the pairs by ngram, so equal duplicate-free sets mean identical sections.) *)
+Theorem C10_reuse_after_reset_writes_same :
+  forall (st : pbuilder) (docs : list rdoc),
+    reachable st ->
+    let s' := add_strings (reset_pb st) docs in
+    let f' := add_strings fresh_pb docs in
+    (forall kd, In kd (written s') <-> In kd (written f')) /\
+    NoDup (map fst (written s')) /\ NoDup (map fst (written f')) /\
+    pb_scalars s' = pb_scalars f'.
+Proof. intros st docs Hr. apply reuse_writes_same, reachable_Inv, Hr. Qed.
+Print Assumptions C10_reuse_after_reset_writes_same.
+
+(** (5) Configuration independence of result sets. HYPOTHESIS (explicit): searching a shard is document-local —
+    its result is, up to order, the union over the shard's documents of what each document contributes
+    ([match_doc q d]: file match with its line matches and branches). Then for any two ShardMax values and any
+    permutation of the insertion order the multiset of results over all shards is the same. *)
+Theorem C10_config_independent :
+  forall (A Q R : Type) (match_doc : Q -> A -> list R) (search_shard : list A -> Q -> list R),
+    (forall sh q, Permutation (search_shard sh q) (flat_map (match_doc q) sh)) ->
+  forall (weight : A -> N) (key : A -> dkey) (m1 m2 : N) (docs docs' : list A) (q : Q),
+    Permutation docs docs' ->
+    Permutation (search_all search_shard (build weight key m1 docs) q) (search_all search_shard (build weight key m2 docs') q).
+Proof. intros A Q R md ss Hl w k m1 m2 docs docs' q Hp. exact (config_independent md ss Hl w k m1 m2 docs docs' q Hp). Qed.
+Print Assumptions C10_config_independent.
+
+(** (6) ... and of any regrouping of the same documents into shards (simple shards vs a compound shard, the order in
+    which parallel builds finish). *)
+Theorem C10_regrouping_independent :
+  forall (A Q R : Type) (match_doc : Q -> A -> list R) (search_shard : list A -> Q -> list R),
+    (forall sh q, Permutation (search_shard sh q) (flat_map (match_doc q) sh)) ->
+  forall (shards1 shards2 : list (list A)) (q : Q),
+    Permutation (concat shards1) (concat shards2) ->
+    Permutation (search_all search_shard shards1 q) (search_all search_shard shards2 q).
+Proof. intros A Q R md ss Hl s1 s2 q Hp. exact (regrouping_independent md ss Hl s1 s2 q Hp). Qed.
+Print Assumptions C10_regrouping_independent.
+
+(** ---- Non-vacuity *)
+Definition xkey (n : N) : dkey := mkKey false false false (N.eqb n 3) n 0 (10 - n) 1.
+(* five documents of weights 3,4,5,1,2 under ShardMax 6: three shards; sorted inside (the test file 3 goes last) *)
+Example C10_nonvacuous_partition :
+  partition (fun n : N => n) 6 [3; 4; 5; 1; 2]%N = [[3; 4]; [5; 1; 2]]%N /\
+  build (fun n : N => n) xkey 6 [3; 4; 5; 1; 2]%N = [[4; 3]; [1; 2; 5]]%N /\
+  partition (fun n : N => n) 6 (@nil N) = [[]].
+Proof. vm_compute. auto. Qed.
+(* a reachable, really used pooled builder: "abcab" then reset then "bcé": same written pairs as fresh, and the stale
+   trigram "abc"/"cab" of the first shard is not written *)
+Definition xdoc1 : rdoc := [(97, 1); (98, 1); (99, 1); (97, 1); (98, 1)]%N.
+Definition xdoc2 : rdoc := [(98, 1); (99, 1); (233, 2)]%N.
+Example C10_nonvacuous_reuse :
+  reachable (add_string fresh_pb xdoc1) /\
+  length (written (add_string fresh_pb xdoc1)) = 3 /\
+  sort_ng (written (add_strings (reset_pb (add_string fresh_pb xdoc1)) [xdoc2])) = sort_ng (written (add_strings fresh_pb [xdoc2])) /\
+  length (written (add_strings (reset_pb (add_string fresh_pb xdoc1)) [xdoc2])) = 1.
+Proof. split; [repeat constructor|]. vm_compute. auto. Qed.
+(* the hypothesis of (5) is satisfiable: a document-local search *)
+Example C10_nonvacuous_search :
+  let md := fun (q d : N) => if N.eqb (d mod q) 0 then [d] else [] in
+  let ss := fun (sh : list N) (q : N) => flat_map (md q) sh in
+  (forall sh q, Permutation (ss sh q) (flat_map (md q) sh)) /\
+  search_all ss (build (fun n : N => n) xkey 6 [3; 4; 5; 1; 2; 6]%N) 2%N = [4; 2; 6]%N /\
+  search_all ss (build (fun n : N => n) xkey 100 [6; 2; 1; 5; 4; 3]%N) 2%N = [2; 4; 6]%N.
+Proof. split; [intros; apply Permutation_refl|]. vm_compute. auto. Qed.
